@@ -26,8 +26,8 @@ def gen_join_table(rng, name, uniq, pnull=0.0):
             {"name": "s", "type": "varchar"}]
     if rng.random() < 0.3:
         cols.append({"name": "f" + uniq, "type": "boolean"})
-    n = rng.choice([0, 1, 2, 3, 4, 5, 6, 8])
-    keys = rng.choice([[1, 2, 3], [1, 1, 2, 4], [2, 3, 5], [1, 2, 2, 3, 3, 3], [7]])
+    n = rng.choice([0, 1, 2, 3, 4, 5, 6, 8, 8])
+    keys = rng.choice([[1, 2, 3], [1, 1, 2, 4], [2, 3, 5], [1, 2, 2, 3, 3, 3], [1, 2, 3, 4, 5], [7]])
     rows = []
     for _ in range(n):
         r = []
@@ -45,9 +45,9 @@ def gen_join_table(rng, name, uniq, pnull=0.0):
 
 
 def gen_case(rng, tier):
-    pnull = rng.choice([0.0, 0.0, 0.0, 0.2])
+    pnull = rng.choice([0.0, 0.0, 0.0, 0.0, 0.2])
     tables = [gen_join_table(rng, "t1", "a", pnull)]
-    nt = rng.choice([1, 2, 2, 3, 3])
+    nt = rng.choice([1, 2, 2, 2, 3, 3])
     if nt >= 2:
         tables.append(gen_join_table(rng, "t2", "b", pnull))
     if nt >= 3:
@@ -57,8 +57,10 @@ def gen_case(rng, tier):
     for _ in range(10 if tier == "quick" else 16):
         njoins = rng.choice([1, 1, 2])
         names = [rng.choice(list(by_name)) for _ in range(njoins + 1)]
-        if rng.random() < 0.25:
+        if rng.random() < 0.2:
             names[1] = names[0]                       # self-join
+        elif len(by_name) > 1 and names[1] == names[0] and rng.random() < 0.7:
+            names[1] = rng.choice([n for n in by_name if n != names[0]])
         refs = []                                     # (table, tid, alias text)
         used = set()
         for i, n in enumerate(names):
@@ -68,7 +70,7 @@ def gen_case(rng, tier):
                 alias = rng.choice([a for a in ["x", "y", "z", "w"] if a not in used])
                 used.add(alias)
             refs.append((n, alias or n, alias))
-        mode = rng.choice(["good"] * 6 + ["unqualified", "wrong_qualifier"])
+        mode = rng.choice(["good"] * 8 + ["unqualified", "wrong_qualifier"])
 
         def pool_upto(i):
             cols = []
@@ -89,10 +91,10 @@ def gen_case(rng, tier):
             keycols = [c for c in pool if c.name == "k"]
             if len(keycols) >= 2 and rng.random() < 0.75:
                 l, r = keycols[-1], rng.choice(keycols[:-1])
-                on = "%s.k %s %s.k" % (r.tid, rng.choice(["=", "=", "=", "<", "!=", ">="]), l.tid)
+                on = "%s.k %s %s.k" % (r.tid, rng.choice(["=", "=", "=", "=", "=", "<", "!=", ">="]), l.tid)
                 if mode == "unqualified":
                     on = "k = k"
-                for _ in range(rng.choice([0, 0, 1, 2])):
+                for _ in range(rng.choice([0, 0, 0, 1, 2])):
                     on += " %s %s" % (rng.choice(["AND", "OR"]), sc.gen_pred(rng, pool, pqual=0.0 if mode == "unqualified" else 1.0))
             else:
                 on = sc.gen_cond(rng, pool, rng.choice([0, 1, 2]), pqual=0.0 if mode == "unqualified" else 1.0)
@@ -110,7 +112,7 @@ def gen_case(rng, tier):
 
 
 def generate(rng, tier):
-    n = 80 if tier == "quick" else 400
+    n = 110 if tier == "quick" else 600
     return [gen_case(rng, tier) for _ in range(n)]
 
 
